@@ -6,6 +6,7 @@ CONSTANTS
   PWs = {"p1", "p2", "p3"}
   PubPWs = {"pub1", "pub2"}
   Names = {"alice", "bob"}
+  XNames = {"xacct"}
   ImpIds = {"k1", "s1"}
   MaxSync = 3
   Outcomes = {"commit", "rollback"}
